@@ -28,7 +28,7 @@ STRINGS = ["", " ", "yes", "no", "null", "~", "1e3", "0x10", "1_000", "a: b", "-
            "a\x85b", "a\u2028b", "a\u2029b", "\ufeffa", "a\xa0b", "a\rb", "a\r\nb", "\x7f", "\x1b[0m", "\U0001f600", "a\x0bb", "a\x0cb", "\x85"]
 FILTERS = ["a b", "a_b", "a/b", "a.b", "A B", "ab", "a  b", "a__b", "x", "x ", " x", "r", "g",
            # names that share what precedes a '.', and names with '+', '&', '=' (they end up in zip member names and URI fragments)
-           "g.v1", "g.v2", "g+r", "g r", "a&b", "a&c", "k=1"]
+           "g.v1", "g.v2", "g+r", "g r", "a&b", "a&c", "k=1", "a%41b", "aAb"]
 
 
 def gen_scalar(rng):
@@ -270,6 +270,9 @@ def histories(ctx, tmp, cfgname, req, impl):
         interesting = False
         # corpus: the recorded witness of C01-a runs first (three spellings of one physical_filter in one run)
         forced = ["a b", "a_b", "a/b"] if h == 0 else []
+        if h == 2:
+            # the recorded witness of C01-b: a percent escape in a data-ID value is decoded on the way to the artifact's URI
+            forced = ["a%41b", "aAb"]
         if h == 1:
             # names that differ only after a '.', after an '&': distinct data IDs, distinct artifacts
             forced = ["g.v1", "g.v2", "a&b", "a&c"]
@@ -303,7 +306,7 @@ def histories(ctx, tmp, cfgname, req, impl):
                     used_filters[("vs", did["visit_system"], run)] = True
                     new = (ref, copy.deepcopy(obj), f"put tvs {did['visit_system']} {run[-1]}")
                 elif tname == "tfilt":
-                    free = [f for f in FILTERS if (f, run) not in used_filters]
+                    free = [f for f in FILTERS if (f, run) not in used_filters and "%" not in f and f != "aAb"]  # (the percent pair is corpus only)
                     if not free:
                         continue
                     f = forced.pop(0) if forced else rng.choice(free)
@@ -435,7 +438,7 @@ def histories(ctx, tmp, cfgname, req, impl):
                     det += 1
                     obj = gen_dict(rng, 2)
                     zr.append((src.put(obj, src_types["tdict"], instrument="I", detector=det, run="srcrun"), copy.deepcopy(obj)))
-                free_f = [f for f in FILTERS if f not in src_used_filters]
+                free_f = [f for f in FILTERS if f not in src_used_filters and "%" not in f and f != "aAb"]
                 if free_f and rng.random() < 0.6:
                     # ... and a dataset whose data ID (hence its member name inside the zip) has an awkward spelling
                     f = rng.choice(free_f)
@@ -539,9 +542,10 @@ def histories(ctx, tmp, cfgname, req, impl):
                         except Exception:
                             twins = []
                     alike = bool(twins) and all(_alike(refs[i], refs[j]) for j in twins)
+                    pct = bool(twins) and not alike and all(_alike(refs[i], refs[j], pct=True) for j in twins)
                     viol(f"[{cfgname}] after {ops[-3:]}: dataset {i} ({ident[i][0]} {dict(ident[i][1])} run {ident[i][2][-1]}) stored as "
                          f"{repr(truth[i])[:80]} reads back as {shown}" + (f"; dataset(s) {twins} occupy the same artifact path" if twins else ""),
-                         "template-collision-space-slash-underscore" if alike else f"readback:{cfgname}:{ops}",
+                         "template-collision-space-slash-underscore" if alike else ("template-collision-percent-escape" if pct else f"readback:{cfgname}:{ops}"),
                          {"kind": "history", "config": cfgname, "ops": ops, "dataset": i})
                     live.discard(i)
                     break
@@ -564,9 +568,14 @@ def _uris(b, ref):
     return ([primary] if primary is not None else []) + list(comps.values())
 
 
-def _alike(r1, r2):
+def _alike(r1, r2, pct=False):
     def squash(v):
-        return str(v).replace(" ", "_").replace("/", "_")
+        v = str(v)
+        if pct:
+            import urllib.parse
+
+            v = urllib.parse.unquote(v)
+        return v.replace(" ", "_").replace("/", "_")
 
     d1, d2 = dict(r1.dataId.required), dict(r2.dataId.required)
     return r1.run == r2.run and d1 != d2 and {k: squash(v) for k, v in d1.items()} == {k: squash(v) for k, v in d2.items()}
